@@ -79,4 +79,9 @@ def svd_sweep_parameters(inp):
 
 
 # thorough tier (bounded native sweeps): (function, inputs, obligation of the open finding it reproduces or None)
+def create_delta_spec(inp):
+    from replay.c01 import create_delta_spec as f
+    return f(inp)
+
+
 THOROUGH = [('unique_vs_full', {}, None), ('mean_field_two_baths', {}, None)]
